@@ -50,6 +50,7 @@ type Contract struct {
 	Assumes  []*Clause
 	ExitUpdates [][3]*Sx // ghost assignments at exit: comp[index] := value
 	AssertBefore []*Clause // proved just before calls to a named callee (Label = callee|label)
+	AssertStore  []*Clause // proved at every slice-element / map-entry store of the function (Label = slice|map | label)
 	Maintains []*Clause // closure invariants over its captured cells (assumed at entry, proved at exit; carried across calls that receive the closure)
 	Impl     string   // implements <iface method key>
 	ImplKey  string   // resolved generic specification key
@@ -79,7 +80,7 @@ type ContractSet struct {
 
 var clauseKeywords = map[string]bool{
 	"func": true, "iface": true, "extern": true, "lemma": true, "cover": true,
-	"use": true, "ghost": true, "requires": true, "ensures": true, "ensures-assumed": true, "maintains": true, "assert-before": true, "exit-update": true, "assumes": true, "snapshot": true, "modifies": true,
+	"use": true, "ghost": true, "requires": true, "ensures": true, "ensures-assumed": true, "maintains": true, "assert-before": true, "assert-store": true, "exit-update": true, "assumes": true, "snapshot": true, "modifies": true,
 	"decreases": true, "loop": true, "trusted": true, "inline": true, "noinline": true,
 	"implements": true, "tags": true, "params": true, "extra": true, "reveal": true, "reveal-post": true, "reveal-before": true,
 }
@@ -337,6 +338,17 @@ func (cs *ContractSet) parseFile(path string, pkgPath string, raw bool) error {
 					return err
 				}
 				cur.AssertBefore = append(cur.AssertBefore, &Clause{Kind: kw, Tags: tags, Label: callee + "|" + label, Expr: x, Src: src(at)})
+			case "assert-store":
+				// assert-store[tags] <slice|map> label: expr  -- proved at every store of the function into a slice or
+				// array element (slice) or map entry (map); $val is the stored value, $key the map key
+				kind := toks[i]
+				i++
+				label := readLabel()
+				x, err := readSx()
+				if err != nil {
+					return err
+				}
+				cur.AssertStore = append(cur.AssertStore, &Clause{Kind: kw, Tags: tags, Label: kind + "|" + label, Expr: x, Src: src(at)})
 			case "maintains":
 				label := readLabel()
 				x, err := readSx()
@@ -476,6 +488,9 @@ func (c *Contract) AllTags() []string {
 		add(cl)
 	}
 	for _, cl := range c.AssertBefore {
+		add(cl)
+	}
+	for _, cl := range c.AssertStore {
 		add(cl)
 	}
 	for _, cl := range c.Maintains {
